@@ -5,6 +5,7 @@
 #include "selftest.hh"
 
 #include <sys/personality.h>
+#include <sys/mman.h>
 #include <sys/wait.h>
 #include <sys/stat.h>
 #include <unistd.h>
@@ -18,6 +19,7 @@
 #include <iostream>
 
 using namespace vsim;
+namespace vsim { size_t c13_corpus_items(); }
 
 #ifdef VSIM_SAN
 extern "C" __attribute__((used)) const char* __asan_default_options() {
@@ -44,6 +46,7 @@ struct Viol { uint64_t idx = 0, seed = 0; std::string oracle, site, detail, plan
 
 struct Agg {
 	uint64_t runs = 0, ok = 0, viol = 0, harness = 0, noise_pairs = 0, ticks = 0, steps = 0;
+	uint64_t prefix = ~0ull;      // every run index below this was executed (minimum over the workers)
 	std::vector<uint64_t> counters = std::vector<uint64_t>(C_COUNT, 0);
 	std::unordered_set<uint64_t> cases, fps;
 	std::vector<std::string> samples;
@@ -66,6 +69,7 @@ static void agg_add(Agg& a, const RunResult& r) {
 static void agg_write(const Agg& a, const std::string& path) {
 	std::ofstream o(path);
 	o << "runs " << a.runs << " " << a.ok << " " << a.viol << " " << a.harness << " " << a.noise_pairs << " " << a.ticks << "\n";
+	o << "prefix " << a.prefix << "\n";
 	o << "counters"; for (uint64_t c : a.counters) o << " " << c; o << "\n";
 	o << "cases " << a.cases.size(); for (uint64_t c : a.cases) o << " " << c; o << "\n";
 	o << "fps " << a.fps.size(); for (uint64_t c : a.fps) o << " " << c; o << "\n";
@@ -84,6 +88,7 @@ static void agg_merge_file(Agg& a, const std::string& path) {
 	while (std::getline(in, line)) {
 		std::istringstream is(line); std::string k; is >> k;
 		if (k == "runs") { uint64_t x[6]; for (auto& v : x) is >> v; a.runs += x[0]; a.ok += x[1]; a.viol += x[2]; a.harness += x[3]; a.noise_pairs += x[4]; a.ticks += x[5]; }
+		else if (k == "prefix") { uint64_t v; is >> v; if (v < a.prefix) a.prefix = v; }
 		else if (k == "counters") { for (size_t i = 0; i < C_COUNT; ++i) { uint64_t v = 0; is >> v; a.counters[i] += v; } }
 		else if (k == "cases") { size_t n; is >> n; for (size_t i = 0; i < n; ++i) { uint64_t v; is >> v; a.cases.insert(v); } }
 		else if (k == "fps") { size_t n; is >> n; for (size_t i = 0; i < n; ++i) { uint64_t v; is >> v; a.fps.insert(v); } }
@@ -110,9 +115,14 @@ static std::string env_key(const Env& e) {
 }
 
 // ---------------------------------------------------------------- worker
+static uint64_t* g_next_index = nullptr;
+
 static void worker(const Opts& o, int w, const std::string& aggpath, double deadline) {
-	Agg a;
-	for (uint64_t idx = uint64_t(w); idx < o.max_runs && now_s() < deadline; idx += uint64_t(o.workers)) {
+	Agg a; a.prefix = ~0ull; (void)w;
+	// run indices are handed out dynamically (shared counter): every index below the final counter value is executed
+	while (now_s() < deadline) {
+		uint64_t idx = __atomic_fetch_add(g_next_index, 1, __ATOMIC_RELAXED);
+		if (idx >= o.max_runs) break;
 		uint64_t seed = mix64(o.seed, idx);
 		g_run_index = idx;
 		RunResult r = run_in_child(nullptr, o.profile, o.tier, seed, o.wall);
@@ -135,7 +145,7 @@ static void worker(const Opts& o, int w, const std::string& aggpath, double dead
 			continue;
 		}
 		// noise differential: same layout seed, another noise seed => byte-identical observables
-		if (o.noise_every > 0 && have_plan && pl.env.noise == simheap::N_PATTERN && (idx / uint64_t(o.workers)) % uint64_t(o.noise_every) == 0) {
+		if (o.noise_every > 0 && have_plan && pl.env.noise == simheap::N_PATTERN && idx % uint64_t(o.noise_every) == 0) {
 			Env e2 = pl.env; e2.noise_seed = pl.env.noise_seed * 31 + 7;
 			RunResult r2 = run_in_child(&pl, o.profile, o.tier, seed, o.wall, &e2);
 			++a.noise_pairs; a.counters[c_noise_diff_pairs] += 1;
@@ -266,6 +276,8 @@ static int cmd_run(const Opts& o) {
 	mkdir(tmp.c_str(), 0777);
 	std::string runid = tmp + "/run-" + std::to_string(getpid());
 	std::vector<pid_t> pids;
+	g_next_index = (uint64_t*)mmap(nullptr, 4096, PROT_READ | PROT_WRITE, MAP_SHARED | MAP_ANONYMOUS, -1, 0);
+	*g_next_index = 0;
 	for (int w = 0; w < o.workers; ++w) {
 		pid_t pid = fork();
 		if (pid == 0) { worker(o, w, runid + "-w" + std::to_string(w) + ".agg", deadline); _exit(0); }
@@ -276,6 +288,7 @@ static int cmd_run(const Opts& o) {
 	Agg a;
 	for (int w = 0; w < o.workers; ++w) { std::string f = runid + "-w" + std::to_string(w) + ".agg"; agg_merge_file(a, f); unlink(f.c_str()); }
 	double search_s = now_s() - t0;
+	a.prefix = *g_next_index < o.max_runs ? *g_next_index : o.max_runs;
 
 	int exit_code = 0; std::vector<std::string> violation_lines; std::vector<std::string> replay_files; int reruns_total = 0;
 	if (worker_died || a.harness) { fprintf(stderr, "HARNESS-ERROR: %s\n", a.harness_msg.empty() ? "a worker process died" : a.harness_msg.c_str()); exit_code = 2; }
@@ -323,6 +336,7 @@ static int cmd_run(const Opts& o) {
 		f << " \"runs\": " << a.runs << ", \"runs_ok\": " << a.ok << ", \"runs_violating\": " << a.viol << ", \"harness_errors\": " << a.harness << ",\n";
 		f << " \"search_s\": " << search_s << ", \"wall_s\": " << wall << ", \"workers\": " << o.workers << ", \"runs_per_hour\": " << (search_s > 0 ? uint64_t(double(a.runs) / search_s * 3600.0) : 0) << ",\n";
 		f << " \"logical_ticks\": " << a.ticks << ", \"distinct_fingerprints\": " << a.fps.size() << ", \"distinct_nontrivial_cases\": " << a.cases.size() << ", \"noise_differential_pairs\": " << a.noise_pairs << ",\n";
+		f << " \"contiguous_run_prefix\": " << (a.prefix == ~0ull ? 0 : a.prefix) << ", \"systematic_items\": " << (o.profile == "C13" ? c13_corpus_items() : 0) << ",\n";
 		f << " \"minimisation_reruns\": " << reruns_total << ", \"exit_code\": " << exit_code << ",\n";
 		f << " \"counters\": {"; for (size_t i = 0; i < C_COUNT; ++i) f << (i ? ", " : "") << "\"" << counter_names[i] << "\": " << a.counters[i]; f << "},\n";
 		f << " \"environments\": {"; { bool first = true; for (auto& kv : a.env_hist) { f << (first ? "" : ", ") << jstr(kv.first) << ": " << kv.second; first = false; } } f << "},\n";
